@@ -4,6 +4,7 @@ particular to specify the length limits for field values and the characters allo
 format.
 """
 import decimal
+import re
 
 # Copyright (C) 2009-2021 Thomas Aglassinger
 #
@@ -48,6 +49,26 @@ DEFAULT_PRECISION = len(MAX_DECIMAL_TEXT.split(".")[1])
 #: Scale (total number of digits) to use for decimal numbers if no range is
 #: specified.
 DEFAULT_SCALE = len(MAX_DECIMAL_TEXT) - 1
+
+
+#: Regular expression to find any spelling of an ellipsis outside of quoted text.
+_ELLIPSIS_OUTSIDE_QUOTES_REGEX = re.compile("(\"[^\"]*\"|'[^']*')|\\.\\.\\.|" + ELLIPSIS)
+
+#: Token used to represent an ellipsis when tokenizing a range description.
+_ELLIPSIS_TOKEN_TEXT = ":"
+
+
+def _tokenizable_description(description):
+    """
+    Same as ``description`` but with any spelling of the ellipsis outside of
+    quoted text replaced by a colon (:), which unlike ``'...'`` or
+    :py:const:`ELLIPSIS` is always recognized as a single token by
+    :py:mod:`tokenize`, independent of the Python version.
+    """
+    assert description is not None
+    return _ELLIPSIS_OUTSIDE_QUOTES_REGEX.sub(
+        lambda match: match.group(1) if match.group(1) is not None else _ELLIPSIS_TOKEN_TEXT, description
+    )
 
 
 def code_for_number_token(name, value, location):
@@ -211,7 +232,7 @@ class Range(object):
 
             name_for_code = "range"
             location = None  # TODO: Add location where range is declared.
-            tokens = _tools.tokenize_without_space(self._description)
+            tokens = _tools.tokenize_without_space(_tokenizable_description(self._description))
             end_reached = False
             while not end_reached:
                 lower = None
@@ -268,7 +289,7 @@ class Range(object):
                         )
                     elif (next_type == token.OP) and (next_value == "-"):
                         after_hyphen = True
-                    elif next_value in (ELLIPSIS, ":"):
+                    elif (next_type == token.OP) and (next_value == _ELLIPSIS_TOKEN_TEXT):
                         ellipsis_found = True
                     else:
                         raise errors.InterfaceError(
@@ -545,7 +566,7 @@ class DecimalRange(Range):
         else:
             self._description = description.replace("...", ELLIPSIS)
             self._items = []
-            tokens = _tools.tokenize_without_space(self._description)
+            tokens = _tools.tokenize_without_space(_tokenizable_description(self._description))
             end_reached = False
             max_digits_after_dot = 0
             max_digits_before_dot = 0
@@ -600,7 +621,7 @@ class DecimalRange(Range):
                         )
                     elif (next_type == token.OP) and (next_value == "-"):
                         after_hyphen = True
-                    elif next_value in (ELLIPSIS, ":"):
+                    elif (next_type == token.OP) and (next_value == _ELLIPSIS_TOKEN_TEXT):
                         ellipsis_found = True
                     else:
                         message = (
